@@ -597,7 +597,11 @@ func (c *Ctx) returnedConcrete(f *ssa.Function, depth int) []*types.Named {
 		if !ok {
 			return
 		}
-		for _, v := range r.Results {
+		var vals []ssa.Value
+		for _, rv := range r.Results {
+			vals = append(vals, resolveSpill(rv)...)
+		}
+		for _, v := range vals {
 			switch x := v.(type) {
 			case *ssa.MakeInterface:
 				t := x.X.Type()
@@ -625,16 +629,18 @@ func (c *Ctx) sharedReturns(f *ssa.Function) (shared []ssa.Instruction) {
 		if !ok {
 			return
 		}
-		for _, v := range r.Results {
-			v = strip(v)
-			if isNilConst(v) {
-				continue
-			}
-			if !isSliceLike(v.Type()) {
-				continue
-			}
-			if !freshValue(v, 0) {
-				shared = append(shared, r)
+		for _, rv := range r.Results {
+			for _, v := range resolveSpill(rv) {
+				v = strip(v)
+				if isNilConst(v) {
+					continue
+				}
+				if !isSliceLike(v.Type()) {
+					continue
+				}
+				if !freshValue(v, 0) {
+					shared = append(shared, r)
+				}
 			}
 		}
 	})
